@@ -24,4 +24,5 @@ MUTANTS = [
     {'id': 'c10-benign-validated-fast-path', 'props': ['C10', 'C03'], 'expect': 'silent',
      'edits': [(ENC, "                // Seek the inner layer at the beginning of the chunk\n                self.inner.seek(SeekFrom::Start(pos_chunk_start))?;\n",
                 "                let wanted = u32::try_from(chunk_number).map_err(|_| {\n                    io::Error::new(io::ErrorKind::InvalidInput, \"Chunk number out of range\")\n                })?;\n                let cached_len = self.chunk_cache.get_ref().len() as u64;\n                if wanted == self.current_chunk_number && cached_len != 0 {\n                    // same chunk, valid cache: only reposition\n                    self.inner.seek(SeekFrom::Start(pos_chunk_start + cached_len + TAG_LENGTH as u64))?;\n                    self.chunk_cache.seek(SeekFrom::Start(pos_in_chunk))?;\n                    return Ok(pos);\n                }\n                // Seek the inner layer at the beginning of the chunk\n                self.inner.seek(SeekFrom::Start(pos_chunk_start))?;\n")]},
+    {'id': 'c10-empty-block-ends-file', 'props': ['C10'], 'expect': 'fire', 'keys': ['only-at-end-of-file-block'], 'patch': 'patches/c10-empty-block-ends-file.diff'},
 ]
